@@ -15,6 +15,7 @@ import (
 	"hop.computer/hop/certs"
 	"hop.computer/hop/common"
 	"hop.computer/hop/keys"
+	"hop.computer/hop/pkg/vt"
 )
 
 type serverState uint32
@@ -767,7 +768,13 @@ func (s *Server) Close() (err error) {
 closing:
 	// Closing the socket unblocks both the Serve read loop and any in-flight
 	// writes before we wait for workers or acquire per-session locks.
+	if vt.On {
+		vt.Yield("srv.close.elected")
+	}
 	s.closeErr = s.udpConn.Close()
+	if vt.On {
+		vt.Yield("srv.close.sockclosed")
+	}
 	close(s.stopCookieRotate)
 	s.wg.Wait()
 
@@ -788,6 +795,9 @@ closing:
 	}
 
 	s.state.Store(uint32(serverStateClosed))
+	if vt.On {
+		vt.Yield("srv.close.publish")
+	}
 	close(s.closeDone)
 	return s.closeErr
 }
